@@ -17,14 +17,38 @@ type Block struct {
 	Rows   [][]string
 }
 
+// escCell: what a table cell must look like for the text s ('|' escaped, line breaks as <br>).
+func escCell(s string) string {
+	s = strings.ReplaceAll(s, "|", "\\|")
+	s = strings.ReplaceAll(s, "\r\n", "<br>")
+	s = strings.ReplaceAll(s, "\n", "<br>")
+	return strings.ReplaceAll(s, "\r", "<br>")
+}
+
+// splitRow splits a rendered table line at the pipes that are not escaped; cells keep their
+// escaped form.
 func splitRow(line string) []string {
 	line = strings.TrimSpace(line)
 	line = strings.TrimPrefix(line, "|")
-	line = strings.TrimSuffix(line, "|")
-	parts := strings.Split(line, "|")
-	for i := range parts {
-		parts[i] = strings.TrimSpace(parts[i])
+	if strings.HasSuffix(line, "|") && !strings.HasSuffix(line, "\\|") {
+		line = strings.TrimSuffix(line, "|")
 	}
+	var parts []string
+	cur := strings.Builder{}
+	for i := 0; i < len(line); i++ {
+		if line[i] == '\\' && i+1 < len(line) && line[i+1] == '|' {
+			cur.WriteString("\\|")
+			i++
+			continue
+		}
+		if line[i] == '|' {
+			parts = append(parts, strings.TrimSpace(cur.String()))
+			cur.Reset()
+			continue
+		}
+		cur.WriteByte(line[i])
+	}
+	parts = append(parts, strings.TrimSpace(cur.String()))
 	return parts
 }
 
@@ -92,7 +116,7 @@ func expectedRows(sigs []a.Signal, kinds map[string]int, maxDepth *int, depth in
 		*maxDepth = depth
 	}
 	for _, s := range sigs {
-		res = append(res, rowKey{Name: s.Name(), Start: fmt.Sprint(s.GetStartBit()), Size: fmt.Sprint(s.GetSize())})
+		res = append(res, rowKey{Name: escCell(s.Name()), Start: fmt.Sprint(s.GetStartBit()), Size: fmt.Sprint(s.GetSize())})
 		kinds[fmt.Sprintf("sig-%s-depth%d", s.Kind(), depth)]++
 		if s.Kind() == a.SignalKindMultiplexer {
 			mux, err := s.ToMultiplexer()
@@ -170,8 +194,21 @@ func checkProperty(net *a.Network, blocks []Block, kinds map[string]int, maxDept
 			continue
 		}
 		for _, r := range b.Rows {
+			for _, c := range r {
+				if strings.Contains(c, "\\|") {
+					kinds["cell-with-pipe"]++
+				}
+				if strings.Contains(c, "<br>") {
+					kinds["cell-with-line-break"]++
+				}
+			}
+		}
+		for _, r := range b.Rows {
 			if len(r) != len(b.Header) {
-				shape := "other"
+				shape := "too-few-cells"
+				if len(r) > len(b.Header) {
+					shape = "too-many-cells" // an unescaped '|' in a name or description
+				}
 				if len(r) > 0 && r[0] == "`multiplexer`" {
 					shape = "multiplexer-row"
 				}
@@ -355,13 +392,13 @@ func checkProperty(net *a.Network, blocks []Block, kinds map[string]int, maxDept
 		case "Signal Types":
 			var want, got []string
 			for t := range types {
-				want = append(want, strings.Join([]string{t.Name(), fmt.Sprint(t.Size()), "`" + t.Kind().String() + "`", fmt.Sprintf("`%t`", t.Signed()),
-					fmtG(t.Min()), fmtG(t.Max()), fmtG(t.Scale()), fmtG(t.Offset()), orDash(t.Desc())}, "|"))
+				want = append(want, joinCells([]string{t.Name(), fmt.Sprint(t.Size()), "`" + t.Kind().String() + "`", fmt.Sprintf("`%t`", t.Signed()),
+					fmtG(t.Min()), fmtG(t.Max()), fmtG(t.Scale()), fmtG(t.Offset()), orDash(t.Desc())}))
 			}
 			for _, b := range s.body {
 				if b.Kind == 'T' {
 					for _, r := range b.Rows {
-						got = append(got, strings.Join(r, "|"))
+						got = append(got, strings.Join(r, " | "))
 					}
 				}
 			}
@@ -371,12 +408,12 @@ func checkProperty(net *a.Network, blocks []Block, kinds map[string]int, maxDept
 		case "Signal Units":
 			var want, got []string
 			for u := range units {
-				want = append(want, strings.Join([]string{u.Name(), u.Kind().String(), u.Symbol(), orDash(u.Desc())}, "|"))
+				want = append(want, joinCells([]string{u.Name(), u.Kind().String(), u.Symbol(), orDash(u.Desc())}))
 			}
 			for _, b := range s.body {
 				if b.Kind == 'T' {
 					for _, r := range b.Rows {
-						got = append(got, strings.Join(r, "|"))
+						got = append(got, strings.Join(r, " | "))
 					}
 				}
 			}
@@ -388,7 +425,7 @@ func checkProperty(net *a.Network, blocks []Block, kinds map[string]int, maxDept
 			for e := range enums {
 				x := e.Name()
 				for _, v := range e.Values() {
-					x += "/" + strings.Join([]string{v.Name(), fmt.Sprint(v.Index()), orDash(v.Desc())}, "|")
+					x += "/" + joinCells([]string{v.Name(), fmt.Sprint(v.Index()), orDash(v.Desc())})
 				}
 				if len(e.Values()) == 0 {
 					kinds["enum-without-values"]++
@@ -402,7 +439,7 @@ func checkProperty(net *a.Network, blocks []Block, kinds map[string]int, maxDept
 					cur = len(got) - 1
 				} else if b.Kind == 'T' && cur >= 0 {
 					for _, r := range b.Rows {
-						got[cur] += "/" + strings.Join(r, "|")
+						got[cur] += "/" + strings.Join(r, " | ")
 					}
 				}
 			}
@@ -410,6 +447,25 @@ func checkProperty(net *a.Network, blocks []Block, kinds map[string]int, maxDept
 				add("appendix-enums", "enums listed %q, referenced %q", got, want)
 			}
 		}
+	}
+	// hypothesis of md_appendix_exact (well_formed: one entity id, one definition), evaluated on
+	// the implementation through the getters
+	idOwner := map[a.EntityID]any{}
+	for k := range minDepth {
+		var id a.EntityID
+		switch v := k.(type) {
+		case *a.SignalType:
+			id = v.EntityID()
+		case *a.SignalUnit:
+			id = v.EntityID()
+		case *a.SignalEnum:
+			id = v.EntityID()
+		}
+		if prev, ok := idOwner[id]; ok && prev != k {
+			add("wf-hypothesis-false", "two referenced definitions share the entity id %q", id)
+		}
+		idOwner[id] = k
+		kinds["wf-definitions-checked"]++
 	}
 	for _, d := range minDepth {
 		if d >= 2 {
@@ -429,11 +485,20 @@ func checkProperty(net *a.Network, blocks []Block, kinds map[string]int, maxDept
 	return fails
 }
 
+// joinCells: the expected cells of a row, escaped, joined by an unescaped separator
+func joinCells(cells []string) string {
+	out := make([]string, len(cells))
+	for i, c := range cells {
+		out[i] = escCell(c)
+	}
+	return strings.Join(out, " | ")
+}
+
 func kindOfSignalNamed(m *a.Message, name string) string {
 	var find func(sigs []a.Signal, depth int) string
 	find = func(sigs []a.Signal, depth int) string {
 		for _, s := range sigs {
-			if s.Name() == name {
+			if escCell(s.Name()) == name {
 				d := "top"
 				if depth > 0 {
 					d = "nested"
